@@ -17,7 +17,13 @@ import (
 // Rng is SplitMix64: every random choice of a run derives from one seed.
 type Rng struct{ s uint64 }
 
-func NewRng(seed uint64) *Rng { return &Rng{s: seed*0x9E3779B97F4A7C15 + 0x1234567} }
+func NewRng(seed uint64) *Rng {
+	// mix the seed (two output rounds) so that consecutive seeds give unrelated streams
+	r := &Rng{s: seed ^ 0x5DEECE66D1234567}
+	r.s = r.U64() ^ (seed * 0xD6E8FEB86659FD93)
+	r.s = r.U64()
+	return r
+}
 
 func (r *Rng) U64() uint64 {
 	r.s += 0x9E3779B97F4A7C15
